@@ -146,6 +146,14 @@ def shard_types(arg) -> E.Tally:
             t.bad("C01:FileTransport(dict):stream-aborted", f"base {fr!r}: replay of {len(batch)} single-edit lines ended with {lost} / {excs[:2]}", {"base": fr, "pairs": pairs})
         elif len(got) != want:
             t.bad("C01:FileTransport(dict):delivered-count", f"base {fr!r}: {want} candidates decode on their own, {len(got)} messages delivered", {"base": fr, "pairs": pairs})
+        if j % 4 == 0:  # the same candidates through the MQTT entry point (every 4th base: one transport set-up per base)
+            got, raised, excs, recs = rxworld.mqtt_messages(list(batch.values()))
+            t.by["mqtt_batches"] += 1
+            bad_raise = [r for r in raised if r[1] != "ValueError"]
+            if excs or bad_raise:
+                t.bad("C01:MqttTransport:exception-escapes", f"base {fr!r}: {len(batch)} single-edit lines via MQTT: raised {bad_raise[:2]} / loop {excs[:2]}", {"base": fr, "pairs": pairs, "via": "mqtt"})
+            elif len(got) != want:
+                t.bad("C01:MqttTransport:delivered-count", f"base {fr!r}: {want} candidates decode on their own, {len(got)} messages delivered via MQTT", {"base": fr, "pairs": pairs, "via": "mqtt"})
         if j % 97 == 0:
             t.sample(cands[len(cands) // 3][1])
     t.by["candidates"] = t.n
@@ -225,6 +233,24 @@ def shard_stream(arg) -> E.Tally:
                 for mode, chunks in (("one-read", [b"".join(raw)]), ("line-per-read", raw)):
                     got, raised, excs, _ = rxworld.port_reads(chunks, use_real_protocol=True)
                     _judge(t, f"PortTransport({mode})", name, pos, got, [None] if not raised else raised, excs, want)
+                # (d) MQTT: each line in a well-formed ramses_esp JSON envelope; only a ValueError (empty / undatable line) may
+                # come out of the callback, and only for the bad line itself
+                got, raised, excs, _ = rxworld.mqtt_messages(lines)
+                other = [r for r in raised if r[1] != "ValueError" or not (pos <= r[0] < pos + reps)]
+                _judge(t, "MqttTransport", name, pos, got, [None] if not other else other, excs, want)
+            # (e) MQTT: a valid frame inside an envelope whose timestamp is undatable / has no zone / has no fraction
+            for ts_name, ts in () if name != names[0] else (("empty", ""), ("words", "yesterday at noon"), ("no-zone", "2024-02-29T12:05:59.123456"), ("no-fraction", "2024-02-29T12:05:59+00:00"), ("zulu", "2024-02-29T12:05:59.5Z")):
+                lines = valid[:pos] + [valid[0]] + valid[pos:]
+                stamps = [f"2024-02-29T12:05:{k:02d}.000000+00:00" for k in range(len(lines))]
+                stamps[pos] = ts
+                got, raised, excs, _ = rxworld.mqtt_messages(lines, stamps)
+                datable = ts_name in ("no-zone", "no-fraction", "zulu")
+                other = [r for r in raised if r[1] != "ValueError" or r[0] != pos or datable]
+                t.n += 1
+                want2 = [v[4:] for v in valid]
+                if datable:
+                    want2 = want2[:pos] + [valid[0][4:]] + want2[pos:]
+                _judge(t, "MqttTransport", f"{name}+ts:{ts_name}" if False else f"ts:{ts_name}", pos, got, [None] if not other else other, excs, want2)
     t.by["streams"] = t.n
     return t
 
@@ -308,11 +334,11 @@ def run(ctx) -> None:
         rule="(1) every single edit (substitute each of '078FG-: #*<', delete, insert '0F ' at every position; length/payload/address/code/verb field "
         "edits) of one line per distinct (verb, code, length, address shape, device types) signature of the repo's logs, through Packet.from_file/"
         "from_port/from_dict + Message, and in batches through the real FileTransport+ReadProtocol; (2) each of 22 bad-line classes x every position "
-        "in a 6-line stream x {dict, log, serial one-read, serial line-per-read}; (3) every partition of a 236-byte serial stream into reads with "
+        "in a 6-line stream x {dict, log, serial one-read, serial line-per-read, MQTT message} + MQTT envelopes with undatable / zone-less / fraction-less timestamps at every position; every 4th base's single-edit candidates also through MqttTransport._on_message; (3) every partition of a 236-byte serial stream into reads with "
         "<= 2 (thorough 3) cuts, all-1-byte reads, an empty read at every position. non-trivial = candidates that still decode / streams / partitions",
         exhaustive=True,
     )
-    ctx.assumptions += ["edit alphabet as listed; MQTT envelope handling is exercised by C13's gateway world, not here"]
+    ctx.assumptions += ["edit alphabet as listed; MQTT messages are well-formed JSON envelopes {msg, ts} (a malformed envelope is not 'a line offered as a frame')"]
 
 
 def replay(rep: dict):
